@@ -50,6 +50,23 @@ func c18CodeRoundTrip(c *ev.Collector, v uint32) bool {
 	return true
 }
 
+// c18Names: the 16 defined codes carry exactly the protocol's names.
+func c18NameTable(c *ev.Collector) {
+	for i, name := range c18Names {
+		code := connect.Code(i + 1)
+		text, _ := code.MarshalText()
+		if string(text) != name {
+			c.Violation("TestC18", "code-names", "marshal", []string{"code"}, name, "Code(%d) marshals to %q, the protocol's name is %q", i+1, text, name)
+		}
+		var back connect.Code
+		if err := back.UnmarshalText([]byte(name)); err != nil || back != code {
+			c.Violation("TestC18", "code-names", "unmarshal", []string{"code"}, name, "the protocol's name %q unmarshals to %d (%v), want %d", name, back, err, i+1)
+		}
+	}
+	c.AddEvaluations(16)
+	c.AddDistinct(16)
+}
+
 func c18Codes(c *ev.Collector, thorough bool) {
 	shard, shards := ev.Shard()
 	var n int64
@@ -270,6 +287,9 @@ func TestC18(t *testing.T) {
 	}
 	thorough := ev.Thorough()
 	c18HandlerStatus(t, c)
+	if shard, _ := ev.Shard(); shard == 0 {
+		c18NameTable(c)
+	}
 	c18Reject(c)
 	c18Percent(c)
 	c18Codes(c, thorough)
